@@ -279,6 +279,13 @@ def run_part(prop, seed, budget):
                  "graphql": _out(lambda: [to_snake(x) for x in graphql_schema(query=[ro]).type_map[f"Ro{i}"].fields])}
         want = ["first", "a", "after_a", "last", "b"]
         if any(v != ("ok", want) for v in views.values()): _fail(failures, "ordered-resolvers", "views-do-not-follow-one-order", views={k: list(v) for k, v in views.items()}, expected=want)
+        # order(after= / before=) naming a serialized method or property of the same class body
+        osrc = ["from dataclasses import dataclass, field", "from apischema import order, serialized", "", "@dataclass", f"class Om{i}:", "    a: int = 0",
+                "    @serialized", "    def m(self) -> int: return 1", "    @serialized", "    @property", "    def p(self) -> int: return 2",
+                "    b: int = field(default=0, metadata=order(after=m))", "    c: int = field(default=0, metadata=order(before=p))", ""]
+        n += 1; distinct.add(case_hash("c7-order-after-method")); hist["order-relative-to-a-serialized-member"] += 1
+        r = _out(lambda: (lambda Om: (list(serialize(Om, Om())), list(serialization_schema(Om)["properties"])))(vars(build_module(osrc, f"corners7om_{seed}"))[f"Om{i}"]))
+        if r != ("ok", (["a", "m", "b", "c", "p"], ["a", "m", "b", "c", "p"])): _fail(failures, "ordered-resolvers", "crash:" + r[1].split(":")[0] if r[0] == "crash" else "elements-not-attached-to-the-serialized-member", got=r)
     if prop == "C18":
         # an empty list of examples: every version converts (OpenAPI 3.0 has `example`, taken from the first one when there is one)
         from apischema import schema as _schema
